@@ -84,3 +84,122 @@ Proof.
       destruct (N.eqb_spec p id) as [->|Np]; auto. rewrite Cx.
       destruct (can_be_tip k (bst x)) eqn:B0; auto.
 Qed.
+
+(* ------------------------------------------------------------------ lists with a distinguished position *)
+Lemma find_app c pre l : find_blk c (pre ++ l) = match find_blk c pre with Some y => Some y | None => find_blk c l end.
+Proof.
+  induction pre as [|z r IH]; simpl; auto. destruct (bid z =? c)%N; auto.
+Qed.
+
+Lemma wf_app_tail pre l : wf (pre ++ l) -> wf l.
+Proof. induction pre as [|z r IH]; simpl; auto. intros (W & _ & _). auto. Qed.
+
+Lemma wf_mid pre x r : wf (pre ++ x :: r) -> find_blk (bid x) pre = None.
+Proof.
+  induction pre as [|z p IH]; simpl; auto. intros (W & Hz & _).
+  destruct (N.eqb_spec (bid z) (bid x)) as [E|E]; auto.
+  exfalso. rewrite find_app in Hz. rewrite E in Hz. destruct (find_blk (bid x) p); [discriminate|].
+  simpl in Hz. rewrite N.eqb_refl in Hz. discriminate.
+Qed.
+
+Lemma find_mid pre x r : wf (pre ++ x :: r) -> find_blk (bid x) (pre ++ x :: r) = Some x.
+Proof. intros W. rewrite find_app, (wf_mid pre x r W). simpl. rewrite N.eqb_refl. reflexivity. Qed.
+
+Lemma upd_mid pre x r f : wf (pre ++ x :: r) ->
+  upd (bid x) f (pre ++ x :: r) = pre ++ with_st x (f (bst x)) :: r.
+Proof.
+  intros W. unfold upd. rewrite map_app. simpl. rewrite N.eqb_refl. f_equal.
+  - pose proof (wf_mid pre x r W) as N. clear W. induction pre as [|z p IH]; simpl; auto.
+    simpl in N. destruct (N.eqb_spec (bid z) (bid x)); [discriminate|]. f_equal. auto.
+  - f_equal. pose proof (wf_app_tail pre _ W) as (_ & N & _). clear W.
+    induction r as [|z p IH]; simpl; auto.
+    simpl in N. destruct (N.eqb_spec (bid z) (bid x)); [discriminate|]. f_equal. auto.
+Qed.
+
+Lemma same_skel_app pre l l' : same_skel l l' -> same_skel (pre ++ l) (pre ++ l').
+Proof. unfold same_skel. intros H. rewrite !map_app. congruence. Qed.
+
+Lemma can_be_tip_unfail k st : can_be_tip k st = true -> can_be_tip k (set_fchild false st) = true.
+Proof.
+  unfold can_be_tip, is_valid, failed, valid_upto. simpl. intros H.
+  apply andb_true_iff in H. destruct H as [D H]. apply andb_true_iff in H. destruct H as [Fd V].
+  apply negb_true_iff in Fd. apply orb_false_iff in Fd. destruct Fd as [Fd _].
+  rewrite D, Fd, V. reflexivity.
+Qed.
+
+Lemma can_be_tip_fchild k st : fchild st = true -> can_be_tip k st = false.
+Proof. intros H. apply can_be_tip_failed. unfold failed. rewrite H. apply orb_true_r. Qed.
+
+(* ------------------------------------------------------------------ the revalidation pass *)
+Section RevalPass.
+  Variable k : kind.
+  Variable t : N.
+  Variable l0 : list blk.
+  Hypothesis W0 : wf l0.
+  (* the children of the target carry FAILED_CHILD; everywhere else a failed parent implies FAILED_CHILD *)
+  Hypothesis H1 : forall c y, find_blk c l0 = Some y -> bparent y = Some t -> fchild (bst y) = true.
+  Hypothesis H2 : forall c y p yp, find_blk c l0 = Some y -> bparent y = Some p -> p <> t ->
+                    find_blk p l0 = Some yp -> failed (bst yp) = true -> fchild (bst y) = true.
+
+  (* the children of a block that carries FAILED_CHILD (or of the target) carry it as well *)
+  Lemma children_marked q yq : find_blk q l0 = Some yq -> (q = t \/ fchild (bst yq) = true) ->
+    forall c y, find_blk c l0 = Some y -> bparent y = Some q -> can_be_tip k (bst y) = false.
+  Proof.
+    intros Fq Hq c y Fc P. apply can_be_tip_fchild.
+    destruct (N.eq_dec q t) as [->|Nq]; [eapply H1; eauto|].
+    destruct Hq as [->|Cq]; [contradiction|].
+    eapply (H2 c y q yq); eauto. unfold failed. rewrite Cq. apply orb_true_r.
+  Qed.
+
+  Lemma reval_pass_tips tps : tips_ok k l0 tps -> forall l pre, l0 = pre ++ l ->
+    tips_ok k (pre ++ fst (fst (reval_pass k l0 t l tps))) (snd (fst (reval_pass k l0 t l tps))) /\
+    same_skel l (fst (fst (reval_pass k l0 t l tps))) /\
+    (forall q, memN q (snd (reval_pass k l0 t l tps)) = true ->
+       q = t \/ exists y, find_blk q l0 = Some y /\ fchild (bst y) = true).
+  Proof.
+    intros T. induction l as [|x r IH]; intros pre E.
+    - simpl. rewrite app_nil_r in *. subst pre. split; auto. split; [reflexivity|].
+      intros q H. rewrite orb_false_r in H. apply N.eqb_eq in H. auto.
+    - assert (E' : l0 = (pre ++ [x]) ++ r) by (rewrite <- app_assoc; exact E).
+      destruct (IH (pre ++ [x]) E') as (IT & IS & IC). clear IH.
+      simpl. destruct (reval_pass k l0 t r tps) as [[r' tps1] ct] eqn:M. simpl in IT, IS, IC.
+      rewrite <- app_assoc in IT. simpl in IT.
+      set (lm := pre ++ x :: r') in *.
+      assert (SKm : same_skel l0 lm).
+      { rewrite E. apply same_skel_app. unfold same_skel in *. simpl. congruence. }
+      pose proof (same_skel_wf _ _ SKm W0) as Wm.
+      assert (Fx0 : find_blk (bid x) l0 = Some x) by (rewrite E; apply find_mid; rewrite <- E; exact W0).
+      destruct (match bparent x with Some p => memN p ct | None => false end) eqn:V; simpl.
+      + (* visited *)
+        destruct (bparent x) as [p|] eqn:Px; [|discriminate].
+        assert (Cx : fchild (bst x) = true).
+        { destruct (IC p V) as [->|(yp & Fp & Cp)]; [eapply H1; eauto|].
+          destruct (N.eq_dec p t) as [->|Np]; [eapply H1; eauto|].
+          eapply (H2 (bid x) x p yp); eauto. unfold failed. rewrite Cp. apply orb_true_r. }
+        set (st' := set_fchild false (bst x)).
+        (* the children of x are in front of x: they are the blocks of l0 *)
+        assert (CH0 : forall c y, find_blk c l0 = Some y -> bparent y = Some (bid x) -> can_be_tip k (bst y) = false).
+        { apply (children_marked (bid x) x Fx0). auto. }
+        assert (CHm : forall c y, find_blk c lm = Some y -> bparent y = Some (bid x) -> can_be_tip k (bst y) = false).
+        { intros c y Fc P. unfold lm in Fc. rewrite find_app in Fc.
+          destruct (find_blk c pre) as [yc|] eqn:Fpre.
+          - inversion Fc; subst yc. apply (CH0 c y); auto. rewrite E, find_app, Fpre. reflexivity.
+          - exfalso. pose proof (wf_app_tail pre _ Wm) as Wt. simpl in Fc.
+            destruct (N.eqb_spec (bid x) c) as [Ec|Ec].
+            + inversion Fc; subst y. eapply (wf_parent_ne _ Wt (bid x) x (bid x)); eauto. simpl. rewrite N.eqb_refl. reflexivity.
+            + destruct Wt as (Wr' & Nx & _). apply (wf_parent_found r' Wr' c y (bid x) Fc P). exact Nx. }
+        assert (VT : is_valid_tip k l0 (bid x) st' = can_be_tip k st').
+        { unfold is_valid_tip. rewrite (proj2 (nochild_spec k l0 (bid x) W0) CH0). apply andb_true_r. }
+        rewrite VT.
+        pose proof (tips_improve k lm (bid x) x st' tps1 Wm (find_mid pre x r' Wm)
+                      (can_be_tip_unfail k (bst x)) CHm IT) as TI.
+        unfold lm in TI. rewrite (upd_mid pre x r' (fun _ => st') Wm) in TI. rewrite Px in TI.
+        split; [exact TI|]. split.
+        * unfold same_skel in *. simpl. rewrite skel_with_st. congruence.
+        * intros q Hq. destruct (failed st').
+          -- apply IC, Hq.
+          -- simpl in Hq. apply orb_true_iff in Hq. destruct Hq as [Hq|Hq]; [|apply IC, Hq].
+             apply N.eqb_eq in Hq. subst q. right. exists x. auto.
+      + split; [exact IT|]. split; [|exact IC]. unfold same_skel in *. simpl. congruence.
+  Qed.
+End RevalPass.
